@@ -180,6 +180,7 @@ func runHistoryWith(c HistCfg, afterOpen func(e *fenv.Env), atEnd func(e *fenv.E
 			e.Emit(core.Event{"ev": "Panic", "msg": fmt.Sprint(p), "stack": core.ShortStack()})
 		}
 		tr.Events = e.Events()
+		tr.Writer = e.WriterEvents()
 	}()
 	if err := e.Open(nil, 0); err != nil {
 		e.Emit(core.Event{"ev": "OpenFailed", "err": fenv.ErrKind(err), "msg": fmt.Sprintf("%+v", err)})
